@@ -31,11 +31,12 @@ pub(crate) fn scan_dimen<S: TexlangState>(
             use super::integer::InternalNumber;
             match super::integer::parse_internal_number(input, first_token, command_ref)? {
                 InternalNumber::Integer(i) => (negative * i.signum(), i.abs(), Scaled::ZERO),
+                // TeX.2021.449: goto attach_sign, which range-checks the internal dimension
                 InternalNumber::Dimen(d) => {
-                    return Ok(d * negative);
+                    return Ok(check_range(input, first_token, d)? * negative);
                 }
                 InternalNumber::Glue(g) => {
-                    return Ok(g.width * negative);
+                    return Ok(check_range(input, first_token, g.width)? * negative);
                 }
             }
         }
@@ -175,6 +176,19 @@ pub(crate) fn scan_and_apply_units<S: TexlangState>(
     match Scaled::new(integer_part, fractional_part, scaled_unit) {
         Ok(s) => Ok(s),
         Err(_) => handle_overflow(input, first_token, false),
+    }
+}
+
+/// The test in TeX.2021.448 (attach_sign) for a value that did not come from a calculation.
+fn check_range<S: TexlangState>(
+    input: &mut vm::ExpandedStream<S>,
+    first_token: token::Token,
+    d: Scaled,
+) -> txl::Result<common::Scaled> {
+    if d.0.unsigned_abs() > Scaled::MAX_DIMEN.0.unsigned_abs() {
+        handle_overflow(input, first_token, false)
+    } else {
+        Ok(d)
     }
 }
 
